@@ -106,6 +106,11 @@ class Validator(object):
                     errs.append(ValidationError("Missing required child {}.{}".format(el.name,
                                                                                       child_name)))
 
+        def _parent_name(el):
+            # an element validated on its own (or reached by navigation only) has no parent
+            parent = el.parent if el.parent is not None else el.traversal_parent
+            return parent.name if parent is not None else None
+
         def _check_table_compliance(el, ref, warns):
             table = ref[4]
             if table is not None:
@@ -117,20 +122,20 @@ class Validator(object):
                     table_children = table_ref[1]
                     if el.to_er7() not in table_children:
                         warns.append(ValidationWarning("Value {} not in table {} in element {}.{}".
-                                                       format(el.to_er7(), table, el.parent.name,
+                                                       format(el.to_er7(), table, _parent_name(el),
                                                               el.name)))
 
         def _check_length(el, ref, warns):
             max_length = ref[5]
             if -1 < max_length < len(el.to_er7()):
                 warns.append(ValidationWarning("Exceeded max length ({}) of {}.{}".
-                                               format(max_length, el.parent.name, el.name)))
+                                               format(max_length, _parent_name(el), el.name)))
 
         def _check_datatype(el, ref, errs):
             ref_datatype = ref[2]
             if el.datatype != ref_datatype:
                 errs.append(ValidationError("Datatype {} is not correct for {}.{} (it must be {})".
-                                            format(el.datatype, el.parent.name, el.name, ref[1])))
+                                            format(el.datatype, _parent_name(el), el.name, ref[1])))
 
         def _get_valid_children_info(ref):
             valid_children = {c[0] for c in ref[1]}
@@ -207,7 +212,7 @@ class Validator(object):
                     except ChildNotFound:
                         # e.g. the withdrawn fields of type LA2 in v2.8.2, whose datatype is no longer defined
                         errs.append(ValidationError("Datatype {} of {}.{} is not defined".
-                                                    format(el.datatype, el.parent.name, el.name)))
+                                                    format(el.datatype, _parent_name(el), el.name)))
                         return
                     _is_valid(el, ref, errs, warns)
 
